@@ -93,10 +93,18 @@ class C10Session(Session):
         while p is not None:
             depth += 1
             p = p._parent
+        # tokens {"posof": j}: live views of another tree member's path for the real call, values for the model
+        from .c09 import _plain
+
+        mop = pathops.materialise(op, lambda j: _plain(self.models[j % len(self.models)]))
+        rop = pathops.materialise(op, lambda j: w[j].position)
+        if rop is not op:
+            self.probe("input_aliases_another_members_path")
         # 1. rejected variants on the twin tree: the WHOLE tree must stay bitwise unchanged
         if self.cfg.get("rejects", True) and op["op"] != "reset_path":
-            for vop in pathops.reject_variants(op):
+            for vop0 in pathops.reject_variants(op):
                 self._sync_twin()
+                vop = pathops.materialise(vop0, lambda j: self.twin[j].position)
                 pre = self._snap_all(self.twin)
                 out = pathops.exec_path_op(self.twin.objs[i], vop)
                 self.stats["variants"] += 1
@@ -119,14 +127,14 @@ class C10Session(Session):
         outside = [(j, snap_obj(o, w.index, with_style=False)) for j, o in enumerate(w.objs) if id(o) not in sub]
         check_field = is_coll and self.cfg.get("field_every", 0) and (self.step % self.cfg["field_every"] == 0)
         B0 = self._field(X) if check_field else None
-        out = pathops.exec_path_op(X, op)
+        out = pathops.exec_path_op(X, rop)
         self.stats["ops"] += 1
         self.stats["op." + op["op"] + (".coll" if is_coll else ".leaf")] += 1
         self.log.add("op", self.step, op["op"], op.get("form"), i, out, sdigest(self._snap_all(w)))
         if out != "ok":
             raise Violation("valid_call_rejected", f"{op['op']} {op.get('form')} on object {i} raised {out}",
                             op=op["op"], form=op.get("form"), outcome=out)
-        res = pathops.apply_to_model(self.models[i], op)
+        res = pathops.apply_to_model(self.models[i], mop)
         Nn = len(self.models[i])
         if res[0] == "pad":
             imap = pad_index_map(N, res[1], res[2])
@@ -266,6 +274,7 @@ class Sim:
             "field_every": (1 if thorough else rng.choice([0, 2, 4])),
             "p_leaf_op": rng.choice([0.1, 0.3]),
             "p_inner_op": rng.choice([0.2, 0.4, 0.6]),
+            "alias": rng.random() < 0.7,
         }
 
     def new_world_spec(self, rng, cfg):
@@ -321,6 +330,28 @@ class Sim:
         return C10Session(spec, cfg)
 
     def gen_op(self, rng, cfg, sess):
+        op = self._gen_op(rng, cfg, sess)
+        w = sess.world
+        if cfg.get("alias", True) and rng.random() < 0.12 and op["op"] in ("set_position", "rotate", "move"):
+            # an input that is a live view of another member's path (same tree => same path length)
+            o = op["o"] % len(w.objs)
+            root = w.objs[o]
+            while root._parent is not None:
+                root = root._parent
+            members = [w.index(x) for x in [root] + descendants(root)]
+            members = [m for m in members if m is not None and m != o]
+            if members:
+                j = rng.choice(members)
+                N = len(w.objs[o]._position)
+                if op["op"] == "set_position":
+                    op["v"] = {"posof": j}
+                elif op["op"] == "rotate" and (N == 1 or op.get("start") in (0, -N)):
+                    op["anchor"] = {"posof": j}
+                elif op["op"] == "move" and (N == 1 or op.get("start") in (0, -N)):
+                    op["d"] = {"posof": j}
+        return op
+
+    def _gen_op(self, rng, cfg, sess):
         w = sess.world
         colls = w.colls()
         roots = [i for i in colls if w.objs[i]._parent is None]
